@@ -139,6 +139,8 @@ def main(tier):
     # 5. hostile shapes
     for nm, data in hostile():
         add("hostile", "h:" + nm, {"main.jst": b64(data)})
+    import macrograph
+    macrograph.run(chk, tier, "C01")
     obs = harness("run", cases)
     per_kind = {}
     for cs in cases:
